@@ -21,7 +21,7 @@ CHECKS["C01"] = dict(cat="proof", tech=TECH,
    note=PROOF_NOTE + " 'The ray arrives' and the launch-angle clauses rest on the idealised brentq contract (A6); FTC (A3) links antiderivatives to line integrals.", ref="§5 C01")
 CHECKS["C13"] = dict(cat="proof", tech=TECH,
    text="Contracts on vertex/direction sampling (range + constant Jacobian), particle-type thresholds, box and cylinder exit points, weights, shadow rejection/counting (stated over observable calls and count: every throw draws its own vertex, direction, energy and flavour) and ListGenerator index arithmetic, for symbolic volumes, vertices, directions and generator state; discharged by z3 from the current source.",
-   note=PROOF_NOTE + " Uniform/isotropic are stated through constant Jacobians (A3) over idealised RNG draws (A7); direction sign patterns and list lengths are bounded as listed in the evidence.", ref="§5 C13")
+   note=PROOF_NOTE + " Uniform/isotropic are stated through constant Jacobians (A3) over idealised RNG draws (A7); exit points are proved for all 26 sign patterns of the direction (every non-zero direction) except exactly vertical directions in the cylinder, which rely on IEEE infinities and are sampled natively (B); the ListGenerator clauses are proved for a list of symbolic length (concrete lengths 1-3 in addition).", ref="§5 C13")
 CHECKS["C15"] = dict(cat="proof", tech=TECH,
    text="Contracts on PREM.density (piecewise shells, scalar = array entries, zero outside) for both shipped tables and on slant_depth (zero iff the chord misses, exit point on the surface, trapezoid sum of density along the chord on a ceil(d/step) grid, dependence only on |q|^2 and q.u), plus normalize's contract and two ghost lemmas; discharged by z3 / Groebner-basis ideal membership from the current source; the whole of slant_depth is also compared natively with an independent chord integral for direction vectors of any length (B).",
    note=PROOF_NOTE + " Convergence of the trapezoid rule and monotonic growth with the dip are not decided (N).", ref="§5 C15")
@@ -33,7 +33,7 @@ CHECKS["C18"] = dict(cat="proof", tech=TECH,
    note=PROOF_NOTE + " Reflection counts and layer counts are bounded (B); chain continuity inside LayeredRayTracer.solutions and the split-medium equivalence are N.", ref="§5 C18")
 CHECKS["C02"] = dict(cat="proof", tech=TECH,
    text="Contracts stating that gradient-index paths and tracers read the geometry only through rho, phi and the two depths (dependence-set obligations with the horizontal coordinates withheld), rho/phi contracts with a ghost lemma for translations/rotations, reciprocity of the root problem and of the direct solution, and solution-count/exists clauses; discharged by z3 from the current source.",
-   note=PROOF_NOTE + " Root-search determinism (A6); attenuation reciprocity and the layered tracer are N.", ref="§5 C02")
+   note=PROOF_NOTE + " Root-search determinism (A6); attenuation reciprocity is N; the layered tracer's reciprocity is a bounded native stand-in over stacks of uniform layers (B) plus one fixed gradient-layer geometry that is known finding D14 (gradient-layer stacks otherwise N).", ref="§5 C02")
 CHECKS["C03"] = dict(cat="proof", tech=TECH,
    text="Contracts on Fresnel coefficients (magnitude <= 1, = 1 under total internal reflection), the attenuation factor exp(-|integral|) in (0,1] with integrand ds/L_att(z,|f|), and on the returned polarization vectors (unit, orthogonal, transverse) for all three path classes, with the vertical-emission defect carved out as a known finding; the propagate() harnesses (same grid delayed by tof, single filtering with force_real, per-component factor) and the horizontal-segment branch of the uniform-path attenuation; uniform-path attenuation over stepped segments and linearity/energy in the polarization vector are bounded native samplings (B).",
    note=PROOF_NOTE + " Known finding D10 (vertical emitted direction) is listed in known_findings.json.", ref="§5 C03")
